@@ -31,6 +31,8 @@
 (*       context variable as seen by each task), par (token.old_value).     *)
 (* The trace specification evaluates G and O as booleans on recorded steps. *)
 (*                                                                         *)
+(* StreamsAwaited = FALSE is the caller (runner.Composite) as written before *)
+(* it awaited all its stream tasks on failure; TRUE is the repaired caller.  *)
 (* MinMaxPropagation = FALSE is the code as written ("first caller sets the *)
 (* start, every caller overwrites the end", None included);                *)
 (* MinMaxPropagation = TRUE  is the repaired behaviour (earliest start /    *)
@@ -45,7 +47,11 @@ CONSTANTS Tasks,              \* ids of asyncio task slots (positive naturals)
           MaxDepth,           \* bound on the nesting depth of contexts
           MaxKids,            \* bound on the number of unjoined child tasks of one task
           MaxChunks,          \* bound on additional on_request_end calls (response chunks); -1: unbounded
-          MinMaxPropagation   \* TRUE: repaired propagation; FALSE: code as written
+          MinMaxPropagation,  \* TRUE: repaired propagation; FALSE: code as written
+          StreamsAwaited      \* TRUE: repaired caller (runner.Composite awaits every stream task, also the cancelled ones, before
+                              \*       it ends); FALSE: as written before: once a sub-request has failed, a task may leave its
+                              \*       block / end while tasks it created inside are still running (not awaited, not even cancelled
+                              \*       when the failure surfaces in the final gather)
 
 Absent == -1    \* key not in the dict
 NoneV  == -2    \* key in the dict with value None  (what the properties request_start/request_end return for Absent, too)
@@ -68,9 +74,11 @@ VARIABLES clock,    \* time.perf_counter(), never decreasing; strictly increasin
           he,       \* he[n]: history, latest on_request_end instant of those wire requests (Absent: none so far)
           nwire,    \* number of wire requests so far
           chunks,   \* number of additional on_request_end calls so far
+          fail,     \* fail[t]: a sub-request failed in task t or in a task it awaited (gather re-raises the exception) and t has
+                    \*          not left a block normally since
           act       \* last action (schedule extraction; hidden by VIEW)
 
-vars == <<clock, ts, tpar, cur, scope, base, ctx, par, open, owner, lpar, sub, hs, he, nwire, chunks, act>>
+vars == <<clock, ts, tpar, cur, scope, base, ctx, par, open, owner, lpar, sub, hs, he, nwire, chunks, fail, act>>
 
 Last(s)  == s[Len(s)]
 Front(s) == SubSeq(s, 1, Len(s) - 1)
@@ -81,7 +89,11 @@ RECURSIVE RootOf(_, _)
 RootOf(tp, t) == IF tp[t] = 0 THEN t ELSE RootOf(tp, tp[t])
 
 Live(t) == ts[t] \in {"run", "wire"}
-Kids(t) == {u \in Tasks : tpar[u] = t /\ Live(u)}            \* created by t and not yet finished/joined
+(* left behind: the task that created u has ended, or the block in which u was created has been left (never so under   *)
+(* the structured discipline, see PointerIsScope)                                                                       *)
+Orphan(u) == \/ tpar[u] # 0 /\ ~Live(tpar[u])
+             \/ base[u] > 0 /\ ~open[scope[u][base[u]]]
+Kids(t) == {u \in Tasks : tpar[u] = t /\ Live(u) /\ ~Orphan(u)}   \* created by t, not yet finished/joined
 
 -----------------------------------------------------------------------------
 (* The code's arithmetic.  c is a dict [s, e], v a value handed to update_request_start / update_request_end. *)
@@ -114,7 +126,7 @@ EnterS(t) ==
        /\ sub'   = Append(IF lp = 0 THEN sub ELSE [sub EXCEPT ![lp] = TRUE], FALSE)
        /\ hs'    = Append(hs, Absent)
        /\ he'    = Append(he, Absent)
-       /\ UNCHANGED <<clock, ts, tpar, base, nwire, chunks>>
+       /\ UNCHANGED <<clock, ts, tpar, base, nwire, chunks, fail>>
 EnterO(t) ==
     /\ ctx' = Append(ctx, Fresh)                               \* ctx = {}
     /\ par' = Append(par, cur[t])                              \* token = request_context.set(ctx); token.old_value
@@ -128,7 +140,7 @@ WireStartS(t, tau) ==
     /\ nwire' = nwire + 1
     /\ hs'    = [n \in 1..Len(hs) |-> IF n \in Range(scope[t]) /\ (hs[n] = Absent \/ tau < hs[n]) THEN tau ELSE hs[n]]
     /\ ts'    = [ts EXCEPT ![t] = "wire"]
-    /\ UNCHANGED <<tpar, scope, base, open, owner, lpar, sub, he, chunks>>
+    /\ UNCHANGED <<tpar, scope, base, open, owner, lpar, sub, he, chunks, fail>>
 WireStartO(mm, t, tau) ==
     /\ cur[t] \in Ctxs                                         \* request_context.get() raises LookupError otherwise
     /\ ctx' = [ctx EXCEPT ![cur[t]] = UpdStart(mm, @, tau)]
@@ -142,7 +154,7 @@ WireEndS(t, last, tau) ==
     /\ he'     = [n \in 1..Len(he) |-> IF n \in Range(scope[t]) /\ (he[n] = Absent \/ tau > he[n]) THEN tau ELSE he[n]]
     /\ ts'     = [ts EXCEPT ![t] = IF last THEN "run" ELSE "wire"]
     /\ chunks' = IF last THEN chunks ELSE chunks + 1
-    /\ UNCHANGED <<tpar, scope, base, open, owner, lpar, sub, hs, nwire>>
+    /\ UNCHANGED <<tpar, scope, base, open, owner, lpar, sub, hs, nwire, fail>>
 WireEndO(mm, t, tau) ==
     /\ cur[t] \in Ctxs
     /\ ctx' = [ctx EXCEPT ![cur[t]] = UpdEnd(mm, @, tau)]
@@ -152,14 +164,15 @@ WireEndO(mm, t, tau) ==
 (* top-level.  raised = TRUE: the block is left by an exception (a failed sub-request: timeout, API error ...; the   *)
 (* wire request has been issued and on_request_end has been called by the client's exception hook).  __exit__ does   *)
 (* not look at exc_type: the propagation is the same, the exception travels on (return False).                      *)
-(* Usage discipline (structured concurrency, as in Composite.run_stream): tasks created inside the block have been  *)
-(* awaited.                                                                                                        *)
-ExitG(t) == /\ ts[t] = "run"
-            /\ Len(scope[t]) > base[t]
-            /\ \A u \in Kids(t) : base[u] < Len(scope[t])
-ExitS(t) ==
+(* Usage discipline of the callers (sa: structured concurrency, as in the repaired Composite.run_stream): tasks      *)
+(* created inside the block have been awaited.  ~sa (Composite as written before): not so once a sub-request failed. *)
+ExitG(sa, t) == /\ ts[t] = "run"
+                /\ Len(scope[t]) > base[t]
+                /\ (sa \/ ~fail[t]) => \A u \in Kids(t) : base[u] < Len(scope[t])
+ExitS(t, raised) ==
     /\ scope' = [scope EXCEPT ![t] = Front(@)]
     /\ open'  = [open EXCEPT ![Last(scope[t])] = FALSE]
+    /\ fail'  = [fail EXCEPT ![t] = raised]                   \* an exception is under way; a block left normally has handled it
     /\ UNCHANGED <<clock, ts, tpar, base, owner, lpar, sub, hs, he, nwire, chunks>>
 ExitO(mm, t, raised) ==
     LET n == Last(scope[t])                                    \* the manager's own dict (self.ctx) and token
@@ -179,22 +192,23 @@ SpawnS(t, u) ==
     /\ tpar'  = [tpar EXCEPT ![u] = t]
     /\ scope' = [scope EXCEPT ![u] = scope[t]]
     /\ base'  = [base EXCEPT ![u] = Len(scope[t])]
-    /\ UNCHANGED <<clock, open, owner, lpar, sub, hs, he, nwire, chunks>>
+    /\ UNCHANGED <<clock, open, owner, lpar, sub, hs, he, nwire, chunks, fail>>
 SpawnO(t, u) ==
     /\ cur' = [cur EXCEPT ![u] = cur[t]]
     /\ UNCHANGED <<ctx, par>>
 
-(* Join(t, u): child u has left all its own with blocks, awaited its own children and returned; t awaited it. *)
-(* What the finished task's Context held is unobservable: its slot is cleared.                                *)
-JoinG(t, u) == /\ tpar[u] = t /\ ts[u] = "run" /\ Live(t)
-               /\ Len(scope[u]) = base[u]
-               /\ Kids(u) = {}
+(* Join(t, u): child u has left all its own with blocks, awaited its own children and returned or raised; t awaited *)
+(* it (sa).  ~sa: after a failure u may end without having awaited its children, and nobody may await u any more.   *)
+(* What the finished task's Context held is unobservable: its slot is cleared.                                      *)
+JoinG(sa, t, u) == /\ tpar[u] = t /\ ts[u] = "run" /\ (sa => Live(t))
+                   /\ Len(scope[u]) = base[u]
+                   /\ (sa \/ ~(fail[u] \/ fail[t] \/ Orphan(u))) => Kids(u) = {}     \* ~sa: u failed or was cancelled
 JoinS(t, u) ==
     /\ ts'    = [ts EXCEPT ![u] = "done"]
-    /\ tpar'  = [tpar EXCEPT ![u] = 0]
     /\ scope' = [scope EXCEPT ![u] = <<>>]
     /\ base'  = [base EXCEPT ![u] = 0]
-    /\ UNCHANGED <<clock, open, owner, lpar, sub, hs, he, nwire, chunks>>
+    /\ fail'  = [fail EXCEPT ![t] = @ \/ fail[u]]
+    /\ UNCHANGED <<clock, tpar, open, owner, lpar, sub, hs, he, nwire, chunks>>
 JoinO(t, u) ==
     /\ cur' = [cur EXCEPT ![u] = 0]
     /\ UNCHANGED <<ctx, par>>
@@ -208,11 +222,11 @@ WireStart(t)      == WireStartG(t, clock + 1) /\ WireStartB(t) /\ WireStartS(t, 
 WireEnd(t, last)  == WireEndG(t, clock + 1) /\ WireEndB(last) /\ WireEndS(t, last, clock + 1)
                      /\ WireEndO(MinMaxPropagation, t, clock + 1)
                      /\ act' = [name |-> "WireEnd", t |-> t, u |-> 0, last |-> last, raised |-> FALSE]
-Exit(t, raised)   == ExitG(t) /\ ExitS(t) /\ ExitO(MinMaxPropagation, t, raised)
+Exit(t, raised)   == ExitG(StreamsAwaited, t) /\ ExitS(t, raised) /\ ExitO(MinMaxPropagation, t, raised)
                      /\ act' = [name |-> "Exit", t |-> t, u |-> 0, last |-> FALSE, raised |-> raised]
 Spawn(t, u)       == SpawnG(t, u) /\ SpawnB(t, u) /\ SpawnS(t, u) /\ SpawnO(t, u)
                      /\ act' = [name |-> "Spawn", t |-> t, u |-> u, last |-> FALSE, raised |-> FALSE]
-Join(t, u)        == JoinG(t, u) /\ JoinS(t, u) /\ JoinO(t, u)
+Join(t, u)        == JoinG(StreamsAwaited, t, u) /\ JoinS(t, u) /\ JoinO(t, u)
                      /\ act' = [name |-> "Join", t |-> t, u |-> u, last |-> FALSE, raised |-> FALSE]
 
 InitWith(R) ==
@@ -225,6 +239,7 @@ InitWith(R) ==
     /\ ctx = <<>> /\ par = <<>> /\ open = <<>> /\ owner = <<>> /\ lpar = <<>> /\ sub = <<>> /\ hs = <<>> /\ he = <<>>
     /\ nwire = 0
     /\ chunks = 0
+    /\ fail = [t \in Tasks |-> FALSE]
     /\ act = [name |-> "Init", t |-> 0, u |-> 0, last |-> FALSE, raised |-> FALSE]
 
 Init == InitWith(Roots)
@@ -306,5 +321,6 @@ view == <<[t \in Tasks |-> TaskDesc(t)],
           {<<n \in BadSpanStart, n \in BadSpanEnd, n \in BadLeaf>> : n \in {m \in Ctxs : ~open[m]}},
           Len(ctx),
           IF MaxWire < 0 THEN 0 ELSE nwire,
-          IF MaxChunks < 0 THEN 0 ELSE chunks>>
+          IF MaxChunks < 0 THEN 0 ELSE chunks,
+          IF StreamsAwaited THEN 0 ELSE fail>>          \* fail is read by the guards of the as-written caller only
 =============================================================================
